@@ -22,10 +22,10 @@ macro_rules! impl_generic {
             fn updm(&mut self, d: &[u8]) { self.update_mut(d) }
             fn rst(&mut self) { self.reset() }
             fn rkey(&mut self, k: &[u8]) { self.reset_with_key(k) }
-            fn fin(self) -> Vec<u8> { let mut o = vec![0u8; (BITS + 7) / 8]; self.finalize_at(&mut o); o }
-            fn finr(&mut self) -> Vec<u8> { let mut o = vec![0u8; (BITS + 7) / 8]; self.finalize_reset_at(&mut o); o }
+            fn fin(self) -> Vec<u8> { let mut o = vec![0xa5u8; (BITS + 7) / 8]; self.finalize_at(&mut o); o }
+            fn finr(&mut self) -> Vec<u8> { let mut o = vec![0xa5u8; (BITS + 7) / 8]; self.finalize_reset_at(&mut o); o }
             fn finrk(&mut self, k: &[u8]) -> Vec<u8> {
-                let mut o = vec![0u8; (BITS + 7) / 8];
+                let mut o = vec![0xa5u8; (BITS + 7) / 8];
                 self.finalize_reset_with_key_at(k, &mut o);
                 o
             }
@@ -39,10 +39,10 @@ macro_rules! impl_generic {
             fn updm(&mut self, d: &[u8]) { self.update_mut(d) }
             fn rst(&mut self) { self.reset() }
             fn rkey(&mut self, k: &[u8]) { self.reset_with_key(k) }
-            fn fin(self) -> Vec<u8> { let mut o = vec![0u8; self.output_bits() / 8]; self.finalize_at(&mut o); o }
-            fn finr(&mut self) -> Vec<u8> { let mut o = vec![0u8; self.output_bits() / 8]; self.finalize_reset_at(&mut o); o }
+            fn fin(self) -> Vec<u8> { let mut o = vec![0xa5u8; self.output_bits() / 8]; self.finalize_at(&mut o); o }
+            fn finr(&mut self) -> Vec<u8> { let mut o = vec![0xa5u8; self.output_bits() / 8]; self.finalize_reset_at(&mut o); o }
             fn finrk(&mut self, k: &[u8]) -> Vec<u8> {
-                let mut o = vec![0u8; self.output_bits() / 8];
+                let mut o = vec![0xa5u8; self.output_bits() / 8];
                 self.finalize_reset_with_key_at(k, &mut o);
                 o
             }
@@ -122,7 +122,7 @@ macro_rules! family {
             if key.is_empty() { $m::Context::<BITS>::new() } else { $m::Context::<BITS>::new_keyed(key) }
         }
         fn $hash_ctx<const BITS: usize>(key: &[u8], msg: &[u8]) -> String {
-            let mut out = vec![0u8; (BITS + 7) / 8];
+            let mut out = vec![0xa5u8; (BITS + 7) / 8];
             $new_ctx::<BITS>(key).update(msg).finalize_at(&mut out);
             hex(&out)
         }
@@ -142,13 +142,13 @@ fn new_dyn_s(outlen: usize, key: &[u8]) -> blake2s::ContextDyn {
 }
 fn hash_dyn_b(outlen: usize, key: &[u8], msg: &[u8]) -> String {
     let c = new_dyn_b(outlen, key).update(msg);
-    let mut out = vec![0u8; outlen.min(1 << 20)];
+    let mut out = vec![0xa5u8; outlen.min(1 << 20)];
     c.finalize_at(&mut out);
     hex(&out)
 }
 fn hash_dyn_s(outlen: usize, key: &[u8], msg: &[u8]) -> String {
     let c = new_dyn_s(outlen, key).update(msg);
-    let mut out = vec![0u8; outlen.min(1 << 20)];
+    let mut out = vec![0xa5u8; outlen.min(1 << 20)];
     c.finalize_at(&mut out);
     hex(&out)
 }
@@ -275,13 +275,13 @@ pub fn run(op: &str, a: &[&str]) -> Option<String> {
         "hashdyn.blake2s" => hash_dyn_s(us(a[0]), &unhex(a[1]), &unhex(a[2])),
         "finat.blake2b" => {
             let c = new_dyn_b(us(a[0]), &unhex(a[2])).update(&unhex(a[3]));
-            let mut out = vec![0u8; us(a[1]).min(1 << 20)];
+            let mut out = vec![0xa5u8; us(a[1]).min(1 << 20)];
             c.finalize_at(&mut out);
             hex(&out)
         }
         "finat.blake2s" => {
             let c = new_dyn_s(us(a[0]), &unhex(a[2])).update(&unhex(a[3]));
-            let mut out = vec![0u8; us(a[1]).min(1 << 20)];
+            let mut out = vec![0xa5u8; us(a[1]).min(1 << 20)];
             c.finalize_at(&mut out);
             hex(&out)
         }
